@@ -517,6 +517,7 @@ pub fn cmd_static(a: &Args) {
     let with_cc = a.get("cc", "no") == "yes";
     let fault = a.get("fault", "no") == "yes";
     let failing = a.get("failing", "no") == "yes";
+    let with_agree = a.get("agree", "no") == "yes";
     let cap: usize = a.get("cap", "1500").parse().unwrap();
     let maxq: usize = a.get("maxq", "1000000").parse().unwrap();
     let out = a.get("out", "/dev/stdout");
@@ -560,6 +561,9 @@ pub fn cmd_static(a: &Args) {
                     let qargs: Vec<Vec<usize>> = if kind == "SE" { vec![vec![]] } else { arg_lists(&labels, lists) };
                     let encs: Vec<&str> = if enc_mode == "all" { encoders_for(sem, kind) } else { vec![encoders_for(sem, kind)[0]] };
                     for qa in &qargs {
+                        // C06: the statuses obtained for this query over encoders x certificate flag x explored SAT-model schedules
+                        let mut agree_acc: BTreeMap<String, Vec<String>> = BTreeMap::new();
+                        let mut agree_n = 0usize;
                         for cert in &certs {
                             if kind == "SE" && *cert { continue; }
                             let mut by_out: BTreeMap<Outcome, (Vec<String>, usize, usize, bool)> = BTreeMap::new();
@@ -621,6 +625,11 @@ pub fn cmd_static(a: &Args) {
                                     }
                                 }
                             }
+                            for (o, (encs, mult, _, _)) in &by_out {
+                                let st = if o.capped { "capped" } else if o.panic.is_some() { "panic" } else { match o.st { Some(true) => "yes", Some(false) => "no", None => "none" } };
+                                agree_acc.entry(st.to_string()).or_default().extend(encs.iter().map(|e| format!("{}/cert={}", e, cert)));
+                                agree_n += mult;
+                            }
                             for (o, (encs, mult, runs, exh)) in &by_out {
                                 lines.push(json!({"ev": "q", "sem": sem, "kind": kind, "args": qa, "cert": cert, "encs": encs,
                                     "oracle": oracle, "backend": backend, "out": outcome_json(o), "mult": mult, "runs": runs, "exh": exh, "maxcalls": max_calls_seen}).to_string());
@@ -631,6 +640,11 @@ pub fn cmd_static(a: &Args) {
                                     "range": c.range, "calls": c.calls, "nsat": c.nsat, "returned": c.returned, "decoded": c.decoded, "instances": c.instances,
                                     "mult": mult}).to_string());
                             }
+                        }
+                        if with_agree && kind != "SE" && !agree_acc.is_empty() {
+                            let distinct: Vec<&String> = agree_acc.keys().collect();
+                            let detail: Vec<String> = if distinct.len() > 1 { agree_acc.iter().map(|(k, v)| format!("{}: {}", k, v.join(","))).collect() } else { vec![] };
+                            lines.push(json!({"ev": "agree", "sem": sem, "kind": kind, "args": qa, "statuses": distinct, "n": agree_n, "detail": detail}).to_string());
                         }
                     }
                 }
